@@ -91,7 +91,16 @@ def main():
                 Base("create table verif_base_first (a int not null);").run()
             except BaseException as e:  # noqa
                 res["ctor_exc"] = ["ctor-exc", type(e).__name__, str(e)[:200]]
-        DDLParser = type("UserDialect", (Base,), {sub["rule"]: _f})
+        if sub.get("order") == "mutate_after_first":
+            # the class exists (and one object of it was built) BEFORE a plug-in changes its grammar in place
+            DDLParser = type("UserDialect", (Base,), {})
+            try:
+                DDLParser("create table verif_before_plugin (a int not null);").run()
+            except BaseException as e:  # noqa
+                res["ctor_exc"] = ["ctor-exc", type(e).__name__, str(e)[:200]]
+            setattr(DDLParser, sub["rule"], _f)
+        else:
+            DDLParser = type("UserDialect", (Base,), {sub["rule"]: _f})
 
     def one(it):
         try:
@@ -139,6 +148,36 @@ def main():
         res["digests"].append(core.digest_of(o)[:20])
         if n in want or job.get("all_outcomes"):
             res["outcomes"][str(n)] = core.short(o, 1500)
+    if job.get("reference_table") and not sub:
+        # the tables a parser of this process RUNS WITH, after the process parsed a batch of scripts one after another
+        # (no forks): they must still be exactly the tables of the declared grammar
+        import workload
+        for it in items + [{"ddl": e, "flags": {"silent": False}} for e in workload.ERROR_SHAPES]:
+            try:
+                DDLParser(it["ddl"], **it.get("flags", {})).run(**it.get("run", {}))
+            except BaseException:  # noqa   (the error paths of the grammar are part of what a process goes through)
+                pass
+        try:
+            ns = {}
+            with open(job["reference_table"]) as f:
+                exec(compile(f.read(), job["reference_table"], "exec"), ns)
+            live = DDLParser("create table verif_tables_in_use (a int);").yacc
+            diffs = []
+            ne = lambda t: dict((s, d) for s, d in t.items() if d)      # noqa: E731  a generated table keeps empty rows the file omits
+            la, ra, lg, rg = ne(live.action), ne(ns["_lr_action"]), ne(live.goto), ne(ns["_lr_goto"])
+            if la != ra:
+                bad = [s for s in set(la) | set(ra) if la.get(s) != ra.get(s)]
+                diffs.append("actions differ in %d states, e.g. state %s" % (len(bad), sorted(bad)[:3]))
+            if lg != rg:
+                bad = [s for s in set(lg) | set(rg) if lg.get(s) != rg.get(s)]
+                diffs.append("gotos differ in %d states, e.g. state %s" % (len(bad), sorted(bad)[:3]))
+            lp = [(p.str, p.name, p.len) for p in live.productions]
+            rp = [(p[0], p[1], p[2]) for p in ns["_lr_productions"]]
+            if lp != rp:
+                diffs.append("productions differ")
+            res["tables_in_use"] = diffs
+        except BaseException as e:  # noqa
+            res["tables_in_use"] = ["could not inspect: %r" % (e,)]
     after = _sha(pt)
     res["rewritten"] = before != after
     res["cache_present_after"] = after is not None
